@@ -212,6 +212,14 @@ func (d *defaultFs) Put(ctx context.Context, src io.Reader) (PutRes, error) {
 	// check if this root key already exists AND is valid
 	found, overwrite := existsAndValidBlob(ctx, d.store.backend, d.pather(root), content, lg)
 
+	if found && !overwrite {
+		// refresh the modification time of the root blob we now depend on (see writeBlob):
+		// when the store cannot do that, write it again
+		if ert := d.store.backend.Touch(ctx, d.pather(root)); ert != nil {
+			overwrite = true
+		}
+	}
+
 	if !found || overwrite {
 		if err = d.writeRootKey(ctx, root, content); err != nil {
 			return PutRes{Found: found}, err
